@@ -500,6 +500,15 @@ REAL_K3 = (
     'exactly_lib.impls.instructions.assert_.process_output.impl.exit_code.getter_from_atc._ExitCodeGetter._get_exit_code',
 )
 
+REAL_K3_PARTS = (
+    'exactly_lib.util.process_execution.file_ctx_managers.opened_file',
+    'exactly_lib.impls.types.string_source.command_output.exit_relevant.StdoutWriter',
+    'exactly_lib.impls.types.string_source.command_output.exit_relevant.StderrFileCreator',
+    'exactly_lib.impls.types.string_source.command_output.exit_ignored._WriterBase.write',
+    'exactly_lib.type_val_prims.string_source.impls.concat._ConcatStringSourceContents.write_to',
+    'exactly_lib.impls.types.string_source.as_stdin.of_sequence',
+)
+
 OUT0 = 'some OUT text\nout 2\n'
 ERR0 = 'an err text\n'
 OUTS = (OUT0, 'other OUT\n', '')
@@ -715,7 +724,7 @@ def _k3_cases(tier: str) -> List[K3Case]:
     add('cmd/continuation', act=sys_(['plain', 'sym', 'sym1'], continuation=True), setup_stdin='string-sq')
     # ---- stdin of every kind of text source (quick: each kind rides on one of the scenarios; thorough: one by one)
     if tier == 'thorough':
-        for t in sp.T:
+        for t in sp.STANDARD_TEXT_SOURCES:
             add('stdin/setup-' + t, act=sys_(['plain']), setup_stdin=t)
         add('stdin/pgm-string', act=sys_(['plain'], stdin='string'))
     add('stdin/pgm-program', act=sys_(['sym'], stdin='program'), setup_stdin='sym3')
@@ -765,7 +774,7 @@ def _k3_cases(tier: str) -> List[K3Case]:
         defs=[('P1', Pgm('sys', 'base', ['sym'], stdin='string')), ('P2', Pgm('ref', 'P1', ['sym1'], stdin='program'))],
         runs=[(ph, 'run', Pgm('ref', 'P2', ['plain2']), False) for ph in PHASES])
     if tier == 'thorough':
-        for t in sp.T:
+        for t in sp.STANDARD_TEXT_SOURCES:
             if t in sp.NESTABLE_TEXT_SOURCES:
                 add('stdin/pgm-' + t + '+setup-' + t, act=sys_(['sym'], stdin=t), setup_stdin=t)
             else:
@@ -786,7 +795,7 @@ _K3 = {}
 
 def _k3_case(name: str) -> K3Case:
     if not _K3:
-        for c in _k3_cases('thorough') + _k4_cases('thorough'):
+        for c in _k3_cases('thorough') + _k4_cases('thorough') + _k3x_cases():
             _K3[c.name] = c
     return _K3[name]
 
@@ -840,6 +849,174 @@ def _explain(run, expected):
     if 'crosshair' in sys.modules and not os.environ.get('VSYM_C10_DEBUG'):
         return
     sys.stderr.write('status %s %s\n  expected %r\n  got      %r\n' % (run.status, run.failure_text()[:800], expected, run.calls))
+
+
+# ----------------------------------------------------------------------------- K3: multi-part stdin, here-documents
+# Selector-only kernels: every selector is made concrete first (the solver enumerates the selector space
+# exhaustively), then the real code runs natively on concrete data (tracing suspended).
+
+STUB_UNTRACED = ('CrossHair tracing is suspended (crosshair.tracers.NoTracing) once every selector has been made concrete: '
+                 'the real code runs on concrete data natively')
+
+# Regions of known findings (switched on by known_findings.json entries, see HARNESS_GUIDE)
+REGION_IGN_OUTPUT = 'c10-ignored-exit-code-output-after-buffered-text'
+REGION_ACT_HERE_DOC = 'c10-act-here-doc-loses-empty-and-comment-lines'
+# Defects that are reported but (not yet) listed in known_findings.json nor repaired: while a region named here is not
+# mentioned in known_findings.json, the inputs inside it are left out of the registered obligations (the pre-condition
+# excludes them and the bound says so); as soon as the file mentions the region (as a finding: the driver excludes it
+# and prints KNOWN-FINDING; in a `fixed` record: nothing is excluded) the full obligation is registered.
+# Remove a name from this tuple when its defect is repaired in /repo.
+PENDING_REGIONS = ()  # both resolved: one repaired (bda2ebc), one listed in known_findings.json
+
+_KF_TEXT = []
+
+
+def _pending(region: str) -> bool:
+    if region not in PENDING_REGIONS:
+        return False
+    if not _KF_TEXT:
+        import os
+        p = os.path.join(os.path.dirname(os.path.dirname(os.path.abspath(__file__))), 'known_findings.json')
+        try:
+            with open(p) as f:
+                _KF_TEXT.append(f.read())
+        except OSError:
+            _KF_TEXT.append('')
+    return region not in _KF_TEXT[0]
+
+
+def _left_out(region: str) -> bool:
+    """the inputs of `region` are outside the obligation: excluded by the driver (listed finding) or pending"""
+    return ob.excluded(region) or _pending(region)
+
+
+PARTS_LAYOUTS = ('string+program', 'string+program+string', 'chain', 'chain+setup')
+
+
+def _parts_case(layout: str, variant: str) -> K3Case:
+    """stdin of the action to check made of several parts, one of them (never the first) the output of a program"""
+    name = 'parts/%s/%s' % (layout, variant)
+    if layout == 'string+program':
+        return K3Case(name, act=Pgm('sys', 'prog', ['plain'], stdin='string'), setup_stdin=variant)
+    if layout == 'string+program+string':
+        return K3Case(name, act=Pgm('ref', 'P1', ['plain2'], stdin=variant),
+                      defs=[('P1', Pgm('sys', 'base', ['plain'], stdin='string'))], setup_stdin='string-sq')
+    defs = [('P1', Pgm('sys', 'base', ['plain'], stdin='string')), ('P2', Pgm('ref', 'P1', ['sym'], stdin=variant))]
+    act = Pgm('ref', 'P2', ['plain2'], stdin='here-doc')
+    if layout == 'chain':
+        # everything accumulated through program symbols; the same program also run by `run`
+        return K3Case(name, act=act, defs=defs, runs=[('before-assert', 'run', Pgm('ref', 'P2', ['plain']), False)])
+    return K3Case(name, act=act, defs=defs, setup_stdin='sym3', cd=True)
+
+
+def _pre_k3p(v) -> bool:
+    if _left_out(REGION_IGN_OUTPUT) and v >= 2:
+        return False
+    return 0 <= v < len(sp.GENERATOR_VARIANTS)
+
+
+def k3_stdin_parts(v: int) -> bool:
+    """
+    pre: _pre_k3p(v)
+    post: _
+    """
+    variant = ob.pick(sp.GENERATOR_VARIANTS, v)
+    with L.no_tracing():
+        case = _k3_case('parts/%s/%s' % (ob.case()['layout'], variant))
+        run, expected = _run_whole(case, 'v0', 'v1', L.Child(out=OUT0, err=ERR0, code=0))
+        if ob.case().get('oracle_bug') == 'program-output-first':
+            for p in expected:  # seeded oracle error: the output of the program expected before the other parts
+                if p.role == 'atc':
+                    gen_text = sp.ev(sp.T[variant][1], sp.Env(['', '', '', '']))
+                    p.stdin = gen_text + p.stdin.replace(gen_text, '', 1)
+        ok = _procs_match(expected, run.calls, _source_text()) and run.status == 'PASS'
+        if not ok and not ob.twin():
+            _explain(run, expected)
+    return ob.post(ok)
+
+
+# ---- here-documents: the body must arrive as written, wherever the here-document stands
+HERE_DOC_BODIES = (
+    ('a', 'b'),
+    ('a', '', 'b'),  # an empty line
+    ('# hash', 'b'),  # a line that starts with #
+    ('a', '   # indented hash', 'b'),
+    ('a', '   ', 'b'),  # a blank line
+    ('a # no comment', 'b#c'),
+    ('', ''),
+    ('  indented', 'x  '),
+    (),
+    ('it\'s "q" @[S2]@ $x \\',),
+    ('a', 'b', '', '#'),
+    ('-stdin x', '-transformed-by strip', '% prog'),
+)
+HERE_DOC_PLACES = ('act -stdin', 'act argument', '[setup] stdin =', 'run -stdin in [before-assert]', 'run argument in [setup]')
+
+
+def _body_in_region(lines) -> bool:
+    """the body has an empty / blank line, or a line whose first non-blank character is #"""
+    for l in lines:
+        if l.strip() == '' or l.strip().startswith('#'):
+            return True
+    return False
+
+
+for _b, _lines in enumerate(HERE_DOC_BODIES):
+    _text, _value = sp.here_doc(_lines)
+    _pieces = _value.split('@[S2]@')
+    _value = [sp.C(_pieces[0])]
+    for _piece in _pieces[1:]:
+        _value += [sp.S(2), sp.C(_piece)]
+    sp.T['hd%d' % _b] = (_text, _value, None)
+    sp.A['hd%d' % _b] = (_text, [_value])
+
+
+def _here_doc_case(place: int, b: int) -> K3Case:
+    name = 'here-doc/%d/%d' % (place, b)
+    hd = 'hd%d' % b
+    plain = Pgm('sys', 'prog', ['plain'])
+    if place == 0:
+        return K3Case(name, act=Pgm('sys', 'prog', ['plain'], stdin=hd), setup_stdin='string')
+    if place == 1:
+        return K3Case(name, act=Pgm('sys', 'prog', ['plain', hd]))
+    if place == 2:
+        return K3Case(name, act=plain, setup_stdin=hd)
+    if place == 3:
+        return K3Case(name, act=plain, runs=[('before-assert', 'run', Pgm('sys', 'r1', ['plain'], stdin=hd), False)])
+    return K3Case(name, act=plain, runs=[('setup', 'run', Pgm('sys', 'r1', ['plain2', hd]), False)])
+
+
+def _pre_k3h(place, b) -> bool:
+    if not (0 <= place < len(HERE_DOC_PLACES) and 0 <= b < len(HERE_DOC_BODIES)):
+        return False
+    if _left_out(REGION_ACT_HERE_DOC) and place <= 1 and _body_in_region(HERE_DOC_BODIES[b]):
+        return False
+    return True
+
+
+def k3_act_here_doc(place: int, b: int) -> bool:
+    """
+    pre: _pre_k3h(place, b)
+    post: _
+    """
+    place_, b_ = ob.concrete_int(place, 0, len(HERE_DOC_PLACES) - 1), ob.concrete_int(b, 0, len(HERE_DOC_BODIES) - 1)
+    with L.no_tracing():
+        case = _k3_case('here-doc/%d/%d' % (place_, b_))
+        run, expected = _run_whole(case, 'v0', 'v1', L.Child(out=OUT0, err=ERR0, code=0))
+        if ob.case().get('oracle_bug') == 'blank-lines-dropped':
+            for p in expected:  # seeded oracle error: blank lines of the body expected to be dropped everywhere
+                if p.stdin is not None:
+                    p.stdin = ''.join(l + '\n' for l in p.stdin.split('\n')[:-1] if l.strip() != '')
+        ok = _procs_match(expected, run.calls, _source_text()) and run.status == 'PASS'
+        if not ok and not ob.twin():
+            _explain(run, expected)
+    return ob.post(ok)
+
+
+def _k3x_cases() -> List[K3Case]:
+    cs = [_parts_case(l, v) for l in PARTS_LAYOUTS for v in sp.GENERATOR_VARIANTS]
+    cs += [_here_doc_case(p, b) for p in range(len(HERE_DOC_PLACES)) for b in range(len(HERE_DOC_BODIES))]
+    return cs
 
 
 # =============================================================================================== K4
@@ -1083,6 +1260,32 @@ def obligations(tier: str) -> List[Ob]:
                   case=dict(scenario='stdin/pgm+setup', maxlen=1, oracle_bug='stdin-order'), kernel='K3',
                   bound='seeded oracle error: [setup] stdin expected before the stdin of the program', timeout=120,
                   expect=ob.REFUTE, real=REAL_K3, stubs=(STUB_SUBPROCESS, STUB_SYMBOLS, STUB_SANDBOX)))
+    for layout in PARTS_LAYOUTS:
+        left_out = ' - the two -ignore-exit-code variants are left out (defect reported, region %s pending)' % REGION_IGN_OUTPUT \
+            if _pending(REGION_IGN_OUTPUT) else ''
+        obs.append(Ob(
+            name='K3:stdin-parts/' + layout, fn='k3_stdin_parts', case=dict(layout=layout), kernel='K3', selector=True,
+            bound='test case %r with PROGRAM-OUTPUT one of %r (symbolic selector)%s' % (
+                _parts_case(layout, 'program').text().replace(sp.T['program'][0], 'PROGRAM-OUTPUT'),
+                tuple(sp.T[v][0] for v in sp.GENERATOR_VARIANTS), left_out),
+            timeout=120, real=REAL_K3 + REAL_K3_PARTS, stubs=(STUB_SUBPROCESS, STUB_SANDBOX, STUB_UNTRACED),
+            entry='full_execution.execute on the parsed test case'))
+    obs.append(Ob(name='K3:seeded-program-output-first', fn='k3_stdin_parts',
+                  case=dict(layout='chain', oracle_bug='program-output-first'), kernel='K3', selector=True,
+                  bound='seeded oracle error: the output of the program expected in front of the string parts', timeout=120,
+                  expect=ob.REFUTE, real=REAL_K3 + REAL_K3_PARTS, stubs=(STUB_SUBPROCESS, STUB_SANDBOX, STUB_UNTRACED)))
+    left_out = ' - bodies with an empty / blank line or a line starting with # are left out for the two [act] places ' \
+               '(defect reported, region %s pending)' % REGION_ACT_HERE_DOC if _pending(REGION_ACT_HERE_DOC) else ''
+    obs.append(Ob(
+        name='K3:here-doc-as-written', fn='k3_act_here_doc', case=dict(), kernel='K3', selector=True,
+        bound='a here-document with each of the bodies %r at each of the places %r (symbolic selectors): the process gets '
+              'the body as written%s' % (HERE_DOC_BODIES, HERE_DOC_PLACES, left_out),
+        timeout=120, real=REAL_K3 + ('exactly_lib.impls.actors.util.source_code_lines.all_source_code_lines__std_syntax',
+                                     'exactly_lib.impls.types.string_.parse_rich_string.HereDocParser'),
+        stubs=(STUB_SUBPROCESS, STUB_SANDBOX, STUB_UNTRACED), entry='full_execution.execute on the parsed test case'))
+    obs.append(Ob(name='K3:seeded-blank-lines-dropped', fn='k3_act_here_doc', case=dict(oracle_bug='blank-lines-dropped'),
+                  kernel='K3', selector=True, bound='seeded oracle error: blank lines of a here-document expected to be dropped',
+                  timeout=120, expect=ob.REFUTE, real=REAL_K3, stubs=(STUB_SUBPROCESS, STUB_SANDBOX, STUB_UNTRACED)))
     # ---- K4
     vc = dict(lo=-2 ** 31, hi=2 ** 31)
     obs.append(Ob(name='K4:verdict', fn='k4_verdict', case=vc, kernel='K4',
